@@ -1105,9 +1105,12 @@ XS_EXPRS = ['v + 1', 'w * 2 + v', 'cv - v', 'GV + v', 'GV', '(v if w else cv) + 
 XS_ENTRIES = {
     'gen': ['select(q)', 'left_join(q)', 'exists(q)', 'get(q)', 'delete(q)', 'functools.partial(select, q)()', 'count(q)',
             'select(q).count()', 'select(p for p in select(q))'],
+    'genx': ["select(q, {'P': P}, {'v': 9101, 'w': 9102, 'cv': 9103})", "left_join(q, {'P': P}, {'v': 9101, 'w': 9102, 'cv': 9103})",
+             "exists(q, {'P': P}, {'v': 9101, 'cv': 9103})"],
     'gennum': ['sum(q)', 'min(q)', 'max(q)', 'avg(q)', 'select(q)'],
     'lam': ['P.select(q)', 'P.get(q)', 'P.exists(q)', 'P.select().filter(q)', 'P.select().where(q)',
-            'select(p for p in P).filter(q)', 'functools.partial(P.select, q)()'],
+            'select(p for p in P).filter(q)', 'functools.partial(P.select, q)()',
+            '(P.select(q), P.select().filter(q))[1]', '(P.select().where(q), P.select(q), P.exists(q))[1]'],
     'lamord': ['P.select().order_by(q)', 'select(p for p in P).order_by(q)'],
     'strgen': ['select(q[0], q[1], q[2])', 'left_join(q[0], q[1], q[2])', 'exists(q[0], q[1], q[2])'],
     'strlam': ['P.select(q[0], q[1], q[2])', 'P.select().filter(q[0], q[1], q[2])', 'P.select().where(q[0], q[1], q[2])'],
@@ -1115,7 +1118,7 @@ XS_ENTRIES = {
 
 
 def xs_create(kind, expr):
-    if kind == 'gen': return '(p for p in P if p.x == (%s))' % expr
+    if kind in ('gen', 'genx'): return '(p for p in P if p.x == (%s))' % expr
     if kind == 'gennum': return '(p.x for p in P if p.x == (%s))' % expr
     if kind == 'lam': return 'lambda p: p.x == (%s)' % expr
     if kind == 'lamord': return 'lambda p: p.x + (%s)' % expr
@@ -1157,11 +1160,10 @@ def xscope_case(ctx, rec, rng, kind, entry, expr, creator, route, clash_locals, 
     ctx.count('xscope-entry:' + entry)
     from pony.orm.core import ExprEvalError
     if isinstance(err, ExprEvalError):
-        ctx.count('xscope:loud:ExprEvalError:' + kind)
-        smp = ctx.extra.setdefault('xscope_loud_samples', [])
-        if len(smp) < 8: smp.append({'kind': kind, 'entry': entry, 'expr': expr, 'creator': creator, 'route': route, 'msg': str(err)[:200],
-                                     'clash_locals': sorted(clash_locals), 'clash_globals': sorted(clash_globals)})
-        return None
+        # every program of this stream is valid Python whose expression evaluates in the creating scope: Pony must evaluate it too
+        return {'what': 'Pony fails to evaluate (ExprEvalError) an expression that Python evaluates in the creating scope',
+                'program': program, 'entry': entry, 'expr': expr, 'pony': str(err)[:200], 'python': typed(exp),
+                'clash_locals': sorted(clash_locals), 'clash_globals': sorted(clash_globals), 'kind': kind, 'evalerror': True}
     bound = []
     for vars in rec:
         for k, v in vars.items():
@@ -1187,13 +1189,14 @@ def xscope(ctx):
     for kind, entries in XS_ENTRIES.items():
         for entry in entries:
             for expr in ('GV + v', 'w * 2 + v', 'cv - v'):
+                if kind == 'genx' and 'GV' in expr: continue
                 cases.append((kind, entry, expr, rng.choice(['closure', 'method', 'plain']), rng.choice(['execute', 'via', 'via2', 'method']),
                               set(names), set(names)))
     for _ in range(ctx.scale(120, 3000)):
         kind = rng.choice(list(XS_ENTRIES))
         cl = set(n for n in names if rng.random() < .6)
         cg = set(n for n in names if rng.random() < .4)
-        cases.append((kind, rng.choice(XS_ENTRIES[kind]), rng.choice(XS_EXPRS), rng.choice(['closure', 'method', 'plain']),
+        cases.append((kind, rng.choice(XS_ENTRIES[kind]), rng.choice([x for x in XS_EXPRS if kind != 'genx' or 'GV' not in x]), rng.choice(['closure', 'method', 'plain']),
                       rng.choice(['execute', 'via', 'via2', 'method']), cl, cg))
     seen = set()
     for kind, entry, expr, creator, route, cl, cg in cases:
@@ -1203,6 +1206,14 @@ def xscope(ctx):
             continue
         if not f: continue
         used = sorted(n.id for n in ast.walk(ast.parse(expr, mode='eval')) if isinstance(n, ast.Name) and n.id in names)
+        if f.get('evalerror'):
+            key = 'xscope:%s:expr-eval-error:%s' % ('generator' if kind.startswith('gen') else 'lambda' if kind.startswith('lam') else 'string',
+                                                     re.sub(r'[^A-Za-z]+', '-', f['pony'])[:60])
+            if key not in seen:
+                seen.add(key)
+                ctx.violation(f['what'], {'program': f['program'], 'entry': f['entry'], 'expr': f['expr']}, observed=f['pony'],
+                              expected=f['python'], key=key)
+            continue
         has_global = 'GV' in used and ('GV' in f['clash_locals'] or 'GV' in f['clash_globals'])
         key = 'xscope:%s:%s' % ('generator' if kind.startswith('gen') else 'lambda' if kind.startswith('lam') else 'string',
                                 'creator-global-shadowed-by-executing-scope' if has_global else 'creator-free-variable-shadowed-by-executing-scope')
